@@ -20,6 +20,7 @@
 #include <fcppt/config/external_begin.hpp>
 #include <algorithm>
 #include <cmath>
+#include <limits>
 #include <type_traits>
 #include <fcppt/config/external_end.hpp>
 
@@ -49,8 +50,16 @@ exponential_pade(fcppt::math::matrix::object<T, DN, DN, S> const &_matrix)
 
   T const two{fcppt::literal<T>(2)};
 
-  T const j{
-      std::max(zero, one + std::log(fcppt::math::matrix::infinity_norm(_matrix)) / std::log(two))};
+  // The norm can overflow to infinity even if all entries are finite. Its binary logarithm is less
+  // than max_exponent + DN.
+  T const max_j{
+      fcppt::cast::int_to_float<T>(std::numeric_limits<T>::max_exponent) + one +
+      fcppt::cast::int_to_float<T>(DN)};
+
+  T const j{std::min(
+      max_j,
+      std::max(
+          zero, one + std::log(fcppt::math::matrix::infinity_norm(_matrix)) / std::log(two)))};
 
   matrix_type const temp(std::pow(two, std::floor(-j)) * _matrix);
 
